@@ -190,15 +190,25 @@ class _Canon:
         form = lin(e, atom=self.c)
         return lin_text(form)
 
+    def _plinear(self, e):
+        """parenthesised linear normal form; a sum that reduces to one atom is that atom"""
+        form = lin(e, atom=self.c)
+        nz = {k: v for k, v in form.items() if v != 0}
+        if len(nz) == 1:
+            (k, v), = nz.items()
+            if k != 1 and v == 1:
+                return k
+        return '(%s)' % lin_text(form)
+
     def c_BinOp(self, e):
         if isinstance(e.op, (ast.Add, ast.Sub)):
             # bytes / str concatenation is not commutative: keep order when a
             # bytes/str literal or a known sequence operand is present
             if isinstance(e.op, ast.Add) and _seq_concat(e):
                 return '(%s ++ %s)' % (self.c(e.left), self.c(e.right))
-            return '(%s)' % self._linear(e)
+            return self._plinear(e)
         if isinstance(e.op, ast.Mult) and (const_num(e.left) is not None or const_num(e.right) is not None):
-            return '(%s)' % self._linear(e)
+            return self._plinear(e)
         l, r = self.c(e.left), self.c(e.right)
         if isinstance(e.op, _COMMUT):
             l, r = sorted((l, r))
